@@ -51,7 +51,6 @@ let () =
   (* correspondence with the harness run *)
   let compared = ref 0 and mism = ref 0 in
   iter_trace Sys.argv.(1) (fun id inp obs ->
-    incr compared;
     let o = match obs with x :: _ -> x | [] -> "?" in
     let expect_deadlock =
       match inp with
@@ -67,6 +66,7 @@ let () =
     match expect_deadlock with
     | None -> ()
     | Some e ->
+      incr compared;
       let got = (o = "DEADLOCK") in
       if o <> "OK" && o <> "DEADLOCK" then
         (incr mism; Printf.printf "CORR-MISMATCH case=%s implementation=%s (neither completion nor deadlock)\n" id (String.concat " " obs))
